@@ -86,6 +86,11 @@ def gen_project(rnd, idx):
     for f in range(nfiles):
         d = rnd.choice(DIRS)
         path = (d + "/" if d else "") + "f%d.rs" % f
+        if d and idx % 4 == 2:
+            # module files named like things cargo / git / the tool know: below the project path they are ordinary source files
+            path = d + "/" + ["build.rs", "mod.rs", "main.rs", "target.rs", "tests.rs", "commands.rs", "types.rs", "index.rs", "lib.rs"][(idx // 4 + f) % 9]
+            if any(p == path for p, _ in files):
+                path = (d + "/" if d else "") + "f%d.rs" % f
         body = [rg.PRELUDE]
         for _ in range(rnd.randint(0, 4)):
             name, src, info = command()
